@@ -846,6 +846,13 @@ def getitem(it, obj, key):
     if it.branch(Py.is_dict(obj)):
         if it.branch(unhashable(key)):
             it.raise_(TypeError, "unhashable type")
+        ks = z3.simplify(Py.keys(obj))
+        n = concrete_len(ks)
+        if n is not None and concrete_len(z3.simplify(Py.vals(obj))) == n:
+            for i in range(n):
+                if it.branch(S.py_eq(z3.simplify(ks[i]), key)):
+                    return z3.simplify(z3.simplify(Py.vals(obj))[i])
+            it.raise_(KeyError, key)
         j = dict_lookup(it, obj, key)
         if it.branch(j >= 0):
             it.assume(S.json_child(obj, Py.vals(obj)[j]))
@@ -860,6 +867,8 @@ def getitem(it, obj, key):
         if it.branch(z3.And(kk >= -n, kk < n)):
             e = s[z3.If(kk < 0, kk + n, kk)]
             it.assume(S.json_child(obj, e))
+            # a NodeList holds match records of JSON values
+            it.assume(z3.Implies(Py.is_nodelist(obj), z3.And(Py.is_match(e), S.json_value(Py.mobj(e)))))
             return e
         it.raise_(IndexError, "index out of range")
     if it.branch(Py.is_str(obj)):
@@ -1413,7 +1422,28 @@ def _abs_resolve(it, v, a, k):
     return GenVal([("yieldfrom", sel_resolve(v, s))])
 
 
-ABSTRACT_METHODS = {"resolve": _abs_resolve, "resolve_async": _abs_resolve}
+def context_term(it, c):
+    """FilterContext object -> the tuple of what an expression may read from it."""
+    if isinstance(c, SymObj):
+        f = c.fields
+        return S.mk_tuple([it.to_term(f["current"]), it.to_term(f["root"]), it.to_term(f["extra_context"]), it.to_term(f["current_key"])])
+    return it.to_term(c)
+
+
+def value_kind_facts(r):
+    """What any filter expression evaluates to: a JSON value, Nothing, a nodelist of matches,
+    a compiled pattern (regex literal) or a list (list literal)."""
+    return z3.Or(S.json_value(r), Py.is_undef(r), Py.is_nodelist(r), Py.is_pattern(r))
+
+
+def _abs_evaluate(it, v, a, k):
+    r = expr_evaluate(v, context_term(it, a[0]))
+    it.assume(value_kind_facts(r))
+    it.assumed.append("contract:FilterExpression.evaluate(abstract: a function of the expression and the context)")
+    return r
+
+
+ABSTRACT_METHODS = {"resolve": _abs_resolve, "resolve_async": _abs_resolve, "evaluate": _abs_evaluate, "evaluate_async": _abs_evaluate}
 ABSTRACT_FIELDS = {}
 
 
@@ -1584,6 +1614,28 @@ def _json_loads(it, a, k):
     raise PyRaise(ExcVal(json.JSONDecodeError, [S.mk_str("malformed")]))
 
 
+valid_re = z3.Function("valid_re", STR, z3.BoolSort())
+re_fullmatch_s = z3.Function("re_fullmatch_s", STR, STR, z3.BoolSort())
+re_search_s = z3.Function("re_search_s", STR, STR, z3.BoolSort())
+
+
+def _re_fn(ufn, name):
+    def f(it, a, k):
+        p, s = T(it, a[0]), T(it, a[1])
+        if it.branch(Py.is_pattern(p)):
+            raise Unsupported("re function with compiled pattern")
+        if not it.branch(Py.is_str(p)):
+            it.raise_(TypeError, "first argument must be string or compiled pattern")
+        if not it.branch(valid_re(Py.s(p))):
+            raise PyRaise(ExcVal(re.error, [S.mk_str("bad pattern")]))
+        if not it.branch(Py.is_str(s)):
+            it.raise_(TypeError, "expected string or bytes-like object")
+        it.assumed.append("lib:re (opaque: valid_re / match predicates are uninterpreted)")
+        return z3.If(ufn(Py.s(p), Py.s(s)), S.mk_int(1), S.NONE)
+
+    return Builtin(name, f)
+
+
 _BUILTINS = None
 
 
@@ -1621,6 +1673,8 @@ def _table():
             id(copy.copy): Builtin("copy", _copy_copy),
             id(functools.reduce): Builtin("reduce", _reduce),
             id(json.loads): Builtin("json.loads", _json_loads),
+            id(re.fullmatch): _re_fn(re_fullmatch_s, "re.fullmatch"),
+            id(re.search): _re_fn(re_search_s, "re.search"),
         }
     return _BUILTINS
 
